@@ -61,7 +61,11 @@ N(c) == CASE c = "zero" -> 0 [] c = "one" -> 1 [] c = "few" -> 2 [] c = "many" -
            [] c = "unset" -> 0 [] c = "set" -> 1
 Elems(owner, c) == [i \in 1..N(c) |-> <<owner, i>>]
 NoSlot == [kind |-> "none", prev |-> "zero", new |-> "zero", content |-> <<>>]
+\* elements that are one of three variants (an outline entry: a v1 transaction, a v2 transaction, a bare hash): what
+\* the receiver held at a position is of another variant than what arrives there (variant of element i: (i + shift) % 3)
+VElems(owner, c, shift) == [i \in 1..N(c) |-> <<owner, i, (i + shift) % 3>>]
 Slots == {[kind |-> "slice", prev |-> a, new |-> b, content |-> Elems("old", a)] : a \in Classes, b \in Classes}
+    \cup {[kind |-> "variant", prev |-> a, new |-> b, content |-> VElems("old", a, 0)] : a \in Classes, b \in Classes}
     \cup {[kind |-> "optional", prev |-> a, new |-> b, content |-> Elems("old", a)] : a \in {"set", "unset"}, b \in {"set", "unset"}}
 
 \* ---- (1) the buffer --------------------------------------------------------------------------
@@ -101,7 +105,7 @@ Grow ==
 \* ---- slot ------------------------------------------------------------------------------------
 Decode ==
   /\ fam = "slot" /\ pc = "hold" /\ pc' = "done"
-  /\ slot' = [slot EXCEPT !.content = Elems("new", slot.new)]
+  /\ slot' = [slot EXCEPT !.content = IF slot.kind = "variant" THEN VElems("new", slot.new, 1) ELSE Elems("new", slot.new)]
   /\ UNCHANGED <<fam, recv, seq, len, cap, want, stale, consumed>>
 
 Next == (\E n \in Lens : Arrive(n)) \/ Reset \/ Grow \/ Decode
@@ -111,7 +115,10 @@ Spec == Init /\ [][Next]_vars
 Read == fam = "buffer" /\ pc = "idle" /\ seq # <<>>
 Faithful == Read => (len = want /\ stale = 0 /\ consumed = want /\ cap >= len)
 NoTrust  == (fam = "buffer" /\ pc = "grow") => (len = consumed /\ len <= want)
-Replace  == (fam = "slot" /\ pc = "done") => slot.content = Elems("new", slot.new)
+Replace  == (fam = "slot" /\ pc = "done") =>
+               /\ Len(slot.content) = N(slot.new)
+               /\ \A i \in 1..Len(slot.content) : slot.content[i][1] = "new" /\ slot.content[i][2] = i
+               /\ (slot.kind = "variant" => \A i \in 1..Len(slot.content) : slot.content[i][3] = (i + 1) % 3)
 
 \* ---- case records ----------------------------------------------------------------------------
 EmitCase ==
